@@ -42,6 +42,7 @@ var ErrTemporary = errors.New("simio: temporary failure, nothing written")
 
 func (s *Sink) Write(p []byte) (int, error) {
 	s.NCalls++
+	simrt.Heartbeat.Add(1)
 	if s.OnWrite != nil {
 		s.OnWrite()
 	}
@@ -199,6 +200,7 @@ func (s *Source) chunk(max int) int {
 
 func (s *Source) Read(p []byte) (int, error) {
 	s.Reads++
+	simrt.Heartbeat.Add(1)
 	if s.OnRead != nil {
 		s.OnRead()
 	}
